@@ -691,10 +691,19 @@ def jobs(tier: str, seed: int):
             add("concatenate", ndim=nd, narr=narr, axis=ax, maxlen=L)
     adv = [("A", (1,)), ("A", (3,)), ("A:", (1,)), (":A", (1,)), ("AA", (1, 1)), ("AA", (3, 4)), ("A:A", (1, 1)),
            ("Ai", (1,)), ("iA", (1,)), ("A:i", (1,)), ("sA", (1,)), ("As", (1,)), ("AsA", (1, 2)), (":A:", (3,)),
-           ("A", (0,)), ("Ai:", (1,)), (":Ai:", (1,)), ("AAi:", (1, 1))]
+           ("A", (0,)), ("Ai:", (1,)), (":Ai:", (1,)), ("AAi:", (1, 1)), (":A:A", (1, 1)), (":A:i", (1,)), ("iA:", (1,))]
     if thorough:
         adv += [("Ais", (3,)), ("AAA", (1, 2, 1)), ("A:A", (3, 5)), ("sAs", (1,)), ("iAs", (3,)), ("Asi", (1,)), ("A::", (1,)),
                 ("::A", (4,)), ("AA:", (1, 5)), (":AA", (5, 1)), ("i:A", (1,)), ("isA", (1,)), ("AiA", (1, 1))]
+    # the whole family of index tuples over {index array, full slice, int}: every pattern of length <= 3 (quick) /
+    # <= 4 (thorough) with at least one index array (contiguous and non-contiguous groups, any position of ints)
+    import itertools as _it
+    have = {p_ for p_, _ in adv}
+    for ln in (1, 2, 3) + ((4,) if thorough else ()):
+        for tup in _it.product("A:i", repeat=ln):
+            pat = "".join(tup)
+            if "A" in pat and pat not in have:
+                adv.append((pat, (1,) * pat.count("A")))
     for pat, sel in adv:
         if thorough:
             add("advanced_index", pattern=pat, shp_sel=sel, maxlen=4 if len(pat) < 3 else 3,
